@@ -672,14 +672,14 @@ func (v *variable) index(toks tokens) int {
 			i += 1
 
 		case tokenStar:
-			if j := toks.indexAny(tokenSlash | tokenVerb); j != -1 {
+			if j := toks[i:].indexAny(tokenSlash | tokenVerb); j != -1 {
 				i += j
 			} else {
 				i = n // EOL
 			}
 
 		case tokenStarStar:
-			if j := toks.index(tokenVerb); j != -1 {
+			if j := toks[i:].index(tokenVerb); j != -1 {
 				i += j
 			} else {
 				i = n // EOL
